@@ -147,7 +147,19 @@ impl std::fmt::Display for ParseErrorDisplayPretty<'_> {
             }
         };
         if node.byte_range().is_empty() {
-            writeln!(f, "")?;
+            // nothing to underline, but still show where the syntax is missing
+            let column = node.start_position().column;
+            write!(
+                f,
+                "{}",
+                Excerpt::from_source(
+                    self.path,
+                    self.source,
+                    node.start_position().row,
+                    column..column,
+                    0,
+                ),
+            )?;
         } else {
             let start_column = node.start_position().column;
             let end_column = node.start_position().column
